@@ -891,6 +891,38 @@ def _dither_points(tier):
     return pts
 
 
+# ------------------------------------------------------------------ environment
+
+
+def _env_run(kind, fn, arg, seed):
+    """run a point (or a replay) of another sub-check with torch's GLOBAL default dtype set to float64
+    (a common user setting): modules built from NumPy objects must not pick their precision up from it"""
+    torch = _torch()
+    old = torch.get_default_dtype()
+    torch.set_default_dtype(torch.float64)
+    try:
+        r = fn(arg, seed)
+    finally:
+        torch.set_default_dtype(old)
+    for v in r.get("viol", []):
+        v["tags"]["torch_default_dtype"] = "float64"
+        v["case"] = dict(env_kind=kind, inner=v.get("case") or arg)
+    return r
+
+
+_ENV_FN = {}
+
+
+def _env_eval(pt, seed):
+    kind, arg = pt
+    return _env_run(kind, _ENV_FN[kind][0], arg, seed)
+
+
+def _env_replay(case, seed):
+    kind = case["env_kind"]
+    return _env_run(kind, _ENV_FN[kind][1], case["inner"], seed)
+
+
 # ------------------------------------------------------------------ lattice definition
 
 
@@ -934,7 +966,21 @@ def subchecks(tier, seed):
                 for pad in ((True,) if quick else (True, False)):
                     for prec in PRECS:
                         si.append((b, S, style, pad, prec))
+    _ENV_FN.update(stft=(_stft_eval, _stft_replay), preemph=(_pre_eval, _pre_eval), si=(_si_eval, _si_replay),
+                   dither=(_dither_eval, _dither_eval), torchscript=(_ts_eval, _ts_replay),
+                   post=(_post_eval, _post_eval))
+    env = [("stft", q) for q in stft if q[1] in (5, 8) and q[2] in (2, q[1]) and q[5] == "hamming"] + \
+          [("preemph", q) for q in pre] + [("si", q) for q in si if q[1] == 2] + \
+          [("dither", q) for q in _dither_points(tier) if q["kind"] in ("reproducible", "identity")] + \
+          [("torchscript", q) for q in _ts_points(tier) if q["module"] != "stft"] + \
+          [("post", q) for q in post[:20]]
     return [
+        core.SubCheck(
+            "default_dtype", env, lambda p: _env_eval(p, seed),
+            "the stft (L in {5,8}), preemph, si (S=2), dither, torchscript and post points once more with "
+            "torch.set_default_dtype(torch.float64) in force while the modules are built and called (restored "
+            "afterwards): same oracles",
+            replay=lambda case: _env_replay(case, seed), chunk=4),
         core.SubCheck(
             "stft", stft, lambda p: _stft_eval(p, seed),
             "PyTorchSTFTFrameComputer.from_stft_frame_computer(c)(x) vs c.compute_full(x) at every "
